@@ -81,8 +81,8 @@ m("c16-spacing-swapped", "C16 C18", MD, "        ('x', np.arange(shape[1]) * spa
 m("c16-welford", "C16 C18", "holopy/core/io/io.py", "            return np.sqrt(self._running_var / (self._n))", "            return np.sqrt(self._running_var / (self._n - 1))")
 m("c16-pack-attrs-coords", "C16", "holopy/core/io/io.py", "                new_attrs[attr_coords][attr][str(dim)]=val[dim].values", "                new_attrs[attr_coords][attr][str(dim)]=np.sort(val[dim].values)")
 # ---- C17
-m("c17-ifftshift-revert", "C17", "holopy/core/process/fourier.py", "            shifted = np.fft.ifftshift(", "            shifted = np.fft.fftshift(")
-m("c17-zero-not-reinserted", "C17", "holopy/propagation/convolution_propagation.py", "        res = xr.concat([data] * n_zero + [res], dim='z')", "        res = xr.concat([data] + [res], dim='z')")
+m("c17-ifftshift-revert", "C17", "holopy/core/process/fourier.py", "            data_np = np.fft.ifftshift(data_np, axes=axes)", "            data_np = np.fft.fftshift(data_np, axes=axes)")
+m("c17-zero-not-reinserted", "C17", "holopy/propagation/convolution_propagation.py", "        res = xr.concat([zero] * n_zero + [res], dim='z')", "        res = xr.concat([zero] + [res], dim='z')")
 m("c17-gradient-sign", "C17", "holopy/propagation/convolution_propagation.py", "        g -= np.exp(-1j * 2 * np.pi * (d + gradient_filter) / med_wavelen * np.sqrt(root))", "        g += np.exp(-1j * 2 * np.pi * (d + gradient_filter) / med_wavelen * np.sqrt(root))")
 # ---- C18
 m("c18-bg-order", "C18", "holopy/core/process/img_proc.py", "    holo = (raw - df) / zero_filter(bg - df)", "    holo = (raw - df) / zero_filter(bg) ")
@@ -103,7 +103,7 @@ m("c04-auto-rule-squared", "C04 C09", "holopy/scattering/interface.py", "max_sep
 m("c07-seed-falsy", "C07", "holopy/core/metadata.py", "    if seed is not None:", "    if seed:")
 m("c16-pack-falsy", "C16", "holopy/core/io/io.py", "if val is not None:", "if val:")
 m("c18-zero-filter-isclose", "C18", "holopy/core/process/img_proc.py", "xr.where(image > 0, image, np.nan)", "xr.where(np.isclose(image, 0), np.nan, image)")
-m("c20-translated-falsy", "C20 C19", "holopy/scattering/scatterer/scatterer.py", "if coord2 is None and len(ensure_array(coord1)) == 3:", "if not coord2 and len(ensure_array(coord1)) == 3:")
+m("c20-translated-falsy", "C20 C19", "holopy/scattering/scatterer/scatterer.py", "if coord2 is None and np.shape(ensure_array(coord1)) == (3,):", "if not coord2 and np.shape(ensure_array(coord1)) == (3,):")
 m("c06-nested-components-dropped", "C06", "holopy/scattering/scatterer/composite.py", "components += s.get_component_list()", "components = s.get_component_list()")
 m("c03-asym-over-cext", "C03", "holopy/scattering/theory/mie.py", "asym = 4. * np.pi / (medium_wavevec**2 * cscat)", "asym = 4. * np.pi / (medium_wavevec**2 * cext)")
 
